@@ -194,5 +194,39 @@ fn c17_k_edge_node_swap_label_args() {
     assert!(*n.label() == want && *n.coordinate() == a);
 }
 
+/// the edge-end ordering key (sort key of the edge-end star around a node): counter-clockwise angle order
+/// starting at the positive x-axis, decided exactly -- quadrant first, orientation sign within a quadrant;
+/// antisymmetric, and Equal exactly for parallel same-direction ends.  Complete on the lattice |d| <= 4.
+#[cfg(kani)]
+fn robust_orient2d_model_gg<T: Into<f64>>(pa: robust::Coord<T>, pb: robust::Coord<T>, pc: robust::Coord<T>) -> f64 {
+    let c = |p: robust::Coord<T>| { let (x, y): (f64, f64) = (p.x.into(), p.y.into()); (x as i32, y as i32) };
+    let (p, q, r) = (c(pa), c(pb), c(pc));
+    ((q.0 - p.0) * (r.1 - q.1) - (q.1 - p.1) * (r.0 - q.0)) as f64
+}
+#[cfg(kani)]
+#[kani::proof]
+#[kani::stub(robust::orient2d, robust_orient2d_model_gg)]
+fn c01_k_edge_end_angle_order() {
+    use std::cmp::Ordering;
+    let v: [i8; 6] = kani::any();
+    let mut i = 0;
+    while i < 6 { kani::assume(-4 <= v[i] && v[i] <= 4); i += 1; }
+    let o = Coord { x: v[0] as f64, y: v[1] as f64 };
+    let (ux, uy, wx, wy) = (v[2] as i32, v[3] as i32, v[4] as i32, v[5] as i32);
+    kani::assume((ux != 0 || uy != 0) && (wx != 0 || wy != 0));
+    let a = EdgeEnd::new(o, Coord { x: o.x + ux as f64, y: o.y + uy as f64 }, Label::empty_line_or_point());
+    let b = EdgeEnd::new(o, Coord { x: o.x + wx as f64, y: o.y + wy as f64 }, Label::empty_line_or_point());
+    let got = a.key().compare_direction(b.key());
+    // oracle: quadrant index (NE=0, NW=1, SW=2, SE=3 as in `Quadrant`), then the sign of the cross product
+    let quad = |x: i32, y: i32| if y >= 0 { if x >= 0 { 0 } else { 1 } } else { if x < 0 { 2 } else { 3 } };
+    let (qa, qb) = (quad(ux, uy), quad(wx, wy));
+    let cross = ux * wy - uy * wx;
+    let want = if ux == wx && uy == wy { Ordering::Equal }
+        else if qa != qb { if qa < qb { Ordering::Less } else { Ordering::Greater } }
+        else if cross > 0 { Ordering::Less } else if cross < 0 { Ordering::Greater } else { Ordering::Equal };
+    assert!(got == want);
+    assert!(b.key().compare_direction(a.key()) == want.reverse());
+}
+
 #[cfg(kani)]
 include!(concat!(env!("GEO_VERIF_DIR"), "/.work/playback/pb_geomgraph.rs"));
